@@ -9,12 +9,12 @@ import datetime
 from typing import List, Tuple
 
 from vp.api import P, harness, in_shard, reached
-from harness._sync import vinstall, conc3
+from harness._sync import vinstall, conc3, tick_nodrain
 
 from tornado import locks
 
 NKC = 7   # condition op kinds
-NKE = 7   # event op kinds
+NKE = 11  # event op kinds (7..9 hooked waits, 10 in-iteration set)
 
 _STUBS = ["VLoop/FakeAio virtual loop and clock (vp/env.py): timers fire in (deadline, insertion) "
           "order and never early; callbacks FIFO; a timer 'expiry' is an explicit advance step",
@@ -201,9 +201,27 @@ def h_cond_step(gc: bool, wst: List[int], ops: List[Tuple[int, int]]):
 
 # ----------------------------------------------------------------------------------------------
 # Event
+#
+# Besides operations issued between loop iterations, two op families run *inside* an iteration:
+#  * hooked waits (kinds 7..9): a timed wait whose returned future carries a done-callback that calls
+#    ev.set() / ev.clear() / ev.wait() when it fires.  That callback runs in the same iteration as (and
+#    right after) Event.wait's own "cancel the inner waiter" callback, i.e. while the cancelled inner
+#    future is still registered in Event._waiters (its removal runs one iteration later).
+#  * kind 10: the clock moves, every due timer callback runs, and ev.set() is called BEFORE the callbacks
+#    those timers scheduled (real asyncio runs all due timers of an iteration before the callbacks they
+#    enqueue): the outer futures already carry TimeoutError while the inner waiters are still pending.
+# At most one hooked wait per history: Event.set() walks a *set* of futures, so the relative order of the
+# done-callbacks of several simultaneously woken waits is unspecified (hash order) and two
+# non-commuting hooks would have no defined outcome.
 
 def pre_event(ops: List[Tuple[int, int]]) -> bool:
     if not _ops_ok(ops, NKE, P.N):
+        return False
+    nh = 0
+    for k, a in ops:
+        if 7 <= k <= 9:
+            nh += 1
+    if nh > 1:
         return False
     key = (ops[0][0] if len(ops) > 0 else 0) + NKE * (ops[1][0] if len(ops) > 1 else 0)
     return in_shard(key)
@@ -211,72 +229,144 @@ def pre_event(ops: List[Tuple[int, int]]) -> bool:
 
 @harness(
     pre=pre_event,
-    quick=dict(N=3, timeout=100),
-    thorough=dict(N=4, timeout=1500),
-    nshards=dict(quick=7, thorough=49),
-    reach=["wait_timed_out", "set_wakes_timed_wait", "wait_on_set_event"],
+    quick=dict(N=3, timeout=150, reach_timeout=90),
+    thorough=dict(N=4, timeout=1800),
+    nshards=dict(quick=11, thorough=121),
+    reach=["wait_timed_out", "set_wakes_timed_wait", "wait_on_set_event", "set_inside_cancel_window",
+           "hook_set_wakes_live_waiter", "set_between_timer_and_callbacks"],
     units=["locks.Event.wait", "locks.Event.set", "locks.Event.clear", "locks.Event.is_set",
            "gen.with_timeout", "concurrent.chain_future", "ioloop.IOLoop.add_timeout"],
-    stubs=_STUBS,
-    outside=["histories longer than N operations", "real threads / real clock"],
+    stubs=_STUBS + ["harness/_sync.tick_nodrain: advance the clock and run the due timer callbacks without "
+                    "draining the callback queue (one real-loop iteration's timer phase)"],
+    outside=["histories longer than N operations", "more than one hooked wait per history (callback order of "
+             "simultaneously woken waits is hash order)", "real threads / real clock"],
 )
 def h_event(ops: List[Tuple[int, int]]):
     """ops: 0 wait() | 1 wait(now+a) | 2 wait(timedelta(a)) | 3 set | 4 clear | 5 advance(a) |
-    6 cancel the a-th pending wait future (caller gives up)."""
+    6 cancel the a-th pending wait future (caller gives up) |
+    7/8/9 wait(now+a) whose done-callback calls ev.set() / ev.clear() / ev.wait() |
+    10 clock += a, due timers fire, ev.set() before their callbacks run, then drain."""
     with vinstall() as env:
         ev = locks.Event()
-        flag = False
+        st = {"flag": False, "hook": None, "act": 0, "fired": False, "merged": False}
         futs, mstate, mdead = [], [], []   # 'P' pending, 'S' completed, 'T' timed out, 'C' cancelled
+        newf = []                          # the wait created inside the hook (act 3)
         now = env.v.now
+
+        def m_set():
+            st["flag"] = True
+            for i in range(len(mstate)):
+                if mstate[i] == 'P':
+                    mstate[i] = 'S'
+                    if mdead[i] is not None:
+                        reached("set_wakes_timed_wait")
+
+        def fire_hook(window=False):
+            """the hooked wait just left 'P': its done-callback runs in this very iteration"""
+            h = st["hook"]
+            if h is None or st["fired"] or mstate[h] == 'P':
+                return
+            st["fired"] = True
+            if st["act"] == 1:
+                if window and mdead[h] is not None:
+                    reached("set_inside_cancel_window")
+                    if 'P' in mstate:
+                        reached("hook_set_wakes_live_waiter")
+                m_set()
+            elif st["act"] == 2:
+                st["flag"] = False
+            else:
+                mstate.append('S' if st["flag"] else 'P')
+                mdead.append(None)
+
         for k, a in ops:
-            if k <= 2:
+            if k <= 2 or 7 <= k <= 9:
                 if k == 0:
                     f = ev.wait(); dl = None
-                elif k == 1:
-                    f = ev.wait(now + a); dl = now + a
-                else:
+                elif k == 2:
                     ca = conc3(a)
                     f = ev.wait(datetime.timedelta(seconds=ca)); dl = now + ca
+                else:
+                    f = ev.wait(now + a); dl = now + a
                 futs.append(f)
-                if flag:
+                if st["flag"]:
                     reached("wait_on_set_event")
                     mstate.append('S'); mdead.append(None)
                 else:
                     mstate.append('P'); mdead.append(dl)
+                if k >= 7:
+                    act = k - 6
+                    st["hook"], st["act"] = len(futs) - 1, act
+
+                    def cb(_f, act=act):
+                        if act == 1:
+                            ev.set()
+                        elif act == 2:
+                            ev.clear()
+                        else:
+                            newf.append(ev.wait())
+                    f.add_done_callback(cb)
+                    fire_hook()          # wait on an already-set event: the callback runs in the next drain
             elif k == 3:
                 ev.set()
-                flag = True
-                for i in range(len(mstate)):
-                    if mstate[i] == 'P':
-                        mstate[i] = 'S'
-                        if mdead[i] is not None:
-                            reached("set_wakes_timed_wait")
+                m_set()
+                fire_hook()
             elif k == 4:
                 ev.clear()
-                flag = False
-            elif k == 5:
+                st["flag"] = False
+            elif k == 5 or k == 10:
                 ca = conc3(a)
-                env.advance(ca)
                 now = now + ca
-                for i in range(len(mstate)):
-                    if mstate[i] == 'P' and mdead[i] is not None and mdead[i] <= now:
-                        mstate[i] = 'T'
+                if k == 5:
+                    env.advance(ca)
+                    # timers fire in (deadline, arrival) order, the loop drains after each one: a hook
+                    # that fires on an early expiry acts before the later timers
+                    ordered = st["hook"] is not None and not st["fired"]
+                    while True:
+                        j = None
+                        for i in range(len(mstate)):
+                            if mstate[i] == 'P' and mdead[i] is not None and mdead[i] <= now:
+                                if j is None or (ordered and mdead[i] < mdead[j]):
+                                    j = i
+                        if j is None:
+                            break
+                        mstate[j] = 'T'
                         reached("wait_timed_out")
+                        fire_hook(True)
+                else:
+                    tick_nodrain(env.v, ca)
+                    ev.set()
+                    for i in range(len(mstate)):
+                        if mstate[i] == 'P' and mdead[i] is not None and mdead[i] <= now:
+                            mstate[i] = 'T'
+                            reached("set_between_timer_and_callbacks")
+                    m_set()
+                    fire_hook()
             else:
                 pend = [i for i in range(len(mstate)) if mstate[i] == 'P']
                 if pend:
                     j = pend[a % len(pend)]
                     futs[j].cancel(); mstate[j] = 'C'
+                    fire_hook(True)
             env.run_ready()
-            assert ev.is_set() == flag
+            if st["fired"] and st["act"] == 3 and not st["merged"]:
+                st["merged"] = True
+                assert len(newf) == 1, "the done-callback of the hooked wait must have run exactly once"
+                # the model appended the hook-created wait when the hook fired; align the real list
+                # the model appended its entry when the hook fired (always the last entry of that op)
+                futs.append(newf[0])
+            assert not env.v.exc_contexts, "exception escaped a callback (Event.set/clear/wait called from a " \
+                "done-callback must not raise): %r" % (env.v.exc_contexts,)
+            assert ev.is_set() == st["flag"]
+            assert len(futs) == len(mstate)
             for i, f in enumerate(futs):
-                st = mstate[i]
-                if st == 'P':
+                s_ = mstate[i]
+                if s_ == 'P':
                     assert not f.done(), "wait %d must still block (event not set since the call)" % i
-                elif st == 'S':
+                elif s_ == 'S':
                     assert f.done() and not f.cancelled() and f.exception() is None and f.result() is None, \
                         "wait %d must have completed (event set at/after the call, before its deadline): %r" % (i, f)
-                elif st == 'T':
+                elif s_ == 'T':
                     assert f.done() and not f.cancelled() and f.exception() is not None, \
                         "wait %d must have raised TimeoutError, is %r" % (i, f)
                     assert type(f.exception()).__name__ == "TimeoutError"
@@ -290,4 +380,3 @@ def h_event(ops: List[Tuple[int, int]]):
                 assert not w.done()
             nt = sum(1 for i in range(len(mstate)) if mstate[i] == 'P' and mdead[i] is not None)
             assert len(env.v.pending_timers()) == nt, "timer residue after finished waits"
-        assert not env.v.exc_contexts, "exception escaped a callback: %r" % (env.v.exc_contexts,)
